@@ -37,7 +37,10 @@ def main(ctx):
     g = GuardScheduler()
     # which variant does the code implement? (informational; the model follows the repaired code: locked)
     n = 4 if ctx.tier == 'quick' else 7
-    scheds = [list(s) for s in sorted(set(itertools.permutations([0] * n + [1] * n)))]
+    scheds = []
+    for pos in itertools.combinations(range(2 * n), n):  # positions of thread 0's grants: C(2n, n) interleavings
+        ps = set(pos)
+        scheds.append([0 if i in ps else 1 for i in range(2 * n)])
     extra = ctx.scale(quick=30, thorough=300)
     for _ in range(extra):
         ln = int(ctx.rng.integers(6, 20))
